@@ -42,22 +42,28 @@ func lineTexts(lines []layout.Line) []string {
 }
 
 func paraView(ps []layout.Paragraph) view {
-	v := view{hasG: true, hasS: true}
+	v := view{hasG: true, hasS: true, facets: []string{"Paragraph.Lines[].Fragments", "Paragraph.Text", "Paragraph.Lines[].Text"}}
+	var lt []string
 	for _, p := range ps {
 		v.strs = append(v.strs, p.Text)
 		for _, l := range p.Lines {
 			v.groups = append(v.groups, l.Fragments)
+			lt = append(lt, l.Text)
 		}
 	}
+	v.moreStrs = [][]string{lt}
 	return v
 }
 
 func blockView(bs []layout.Block) view {
-	v := view{hasG: true, hasS: true}
+	v := view{hasG: true, hasS: true, facets: []string{"Block.Fragments", "Block.Lines", "Block.GetText"}}
+	var lines [][]text.TextFragment
 	for i := range bs {
 		v.groups = append(v.groups, bs[i].Fragments)
+		lines = append(lines, bs[i].Lines...)
 		v.strs = append(v.strs, bs[i].GetText())
 	}
+	v.moreGroups = [][][]text.TextFragment{lines}
 	return v
 }
 
@@ -69,7 +75,8 @@ func listItemsText(items []layout.ListItem, sb *strings.Builder) {
 }
 
 func elemView(es []layout.LayoutElement, ps []layout.Paragraph) view {
-	v := view{hasS: true}
+	v := view{hasS: true, facets: []string{"Element.Lines[].Fragments", "Element.Text"}}
+	var elemLines [][]text.TextFragment
 	for _, e := range es {
 		v.strs = append(v.strs, e.Text)
 		k := "paragraph"
@@ -80,11 +87,19 @@ func elemView(es []layout.LayoutElement, ps []layout.Paragraph) view {
 			k = "list"
 		}
 		v.allKinds = append(v.allKinds, k)
+		if k == "list" && e.List != nil {
+			for _, it := range e.List.GetAllItems() {
+				elemLines = append(elemLines, lineGroups(it.Lines)...)
+			}
+		} else {
+			elemLines = append(elemLines, lineGroups(e.Lines)...)
+		}
 		if k != "paragraph" {
 			v.elemBox = append(v.elemBox, box{e.BBox.X, e.BBox.Y, e.BBox.Width, e.BBox.Height})
 			v.elemKind = append(v.elemKind, k)
 		}
 	}
+	v.moreGroups = [][][]text.TextFragment{elemLines}
 	for _, p := range ps {
 		pi := paraInfo{box: box{p.BBox.X, p.BBox.Y, p.BBox.Width, p.BBox.Height}, frags: map[posKey]bool{}}
 		x0, y0, x1, y1 := 1e18, 1e18, -1e18, -1e18
@@ -120,7 +135,9 @@ var apis = []api{
 	}},
 	{name: "Line.Detect", family: "line", part: 1, run1: func(fr []text.TextFragment) view {
 		l := layout.NewLineDetector().Detect(fr, pageW, pageH)
-		return view{hasG: true, groups: lineGroups(l.Lines), hasS: true, strs: lineTexts(l.Lines)}
+		return view{hasG: true, groups: lineGroups(l.Lines), hasS: true, strs: lineTexts(l.Lines),
+			moreGroups: [][][]text.TextFragment{{l.GetAllFragments()}}, moreStrs: [][]string{{l.GetText()}},
+			facets: []string{"Line.Fragments", "LineLayout.GetAllFragments", "Line.Text", "LineLayout.GetText"}}
 	}},
 	{name: "Line.GetText", family: "line", part: 1, run1: func(fr []text.TextFragment) view {
 		l := layout.NewLineDetector().Detect(fr, pageW, pageH)
@@ -129,12 +146,18 @@ var apis = []api{
 	{name: "Paragraph.FromFragments", paras: true, family: "line", part: 1, run1: func(fr []text.TextFragment) view {
 		l := layout.NewParagraphDetector().DetectFromFragments(fr, pageW, pageH)
 		v := paraView(l.Paragraphs)
-		v.strs = append(v.strs[:0:0], l.GetText())
+		v.moreStrs = append(v.moreStrs, []string{l.GetText()})
+		v.facets = append(v.facets, "ParagraphLayout.GetText")
 		return v
 	}},
 	{name: "Block.Detect", family: "block", part: 1, run1: func(fr []text.TextFragment) view {
 		l := layout.NewBlockDetector().Detect(fr, pageW, pageH)
 		v := blockView(l.Blocks)
+		v.moreGroups = append(v.moreGroups, [][]text.TextFragment{l.GetAllFragments()})
+		v.moreStrs = append(v.moreStrs, []string{l.GetText()})
+		v.facets = []string{"Block.Fragments", "Block.Lines", "BlockLayout.GetAllFragments", "Block.GetText", "BlockLayout.GetText"}
+		v.input = fr
+		countBlockMerges(fr)
 		// every fragment of a block is also in exactly one of its lines
 		for i := range l.Blocks {
 			var fl []text.TextFragment
@@ -161,7 +184,16 @@ var apis = []api{
 	}},
 	{name: "ReadingOrder.Lines", family: "column+line", part: 1, run1: func(fr []text.TextFragment) view {
 		r := layout.NewReadingOrderDetector().Detect(fr, pageW, pageH)
-		return view{hasG: true, groups: lineGroups(r.Lines), hasS: true, strs: lineTexts(r.Lines)}
+		v := view{hasG: true, groups: lineGroups(r.Lines), hasS: true, strs: lineTexts(r.Lines),
+			facets: []string{"ReadingOrder.Lines[].Fragments", "Sections[].Lines[].Fragments", "ReadingOrder.Lines[].Text", "Sections[].Lines[].Text"}}
+		var sg [][]text.TextFragment
+		var st []string
+		for _, s := range r.Sections {
+			sg = append(sg, lineGroups(s.Lines)...)
+			st = append(st, lineTexts(s.Lines)...)
+		}
+		v.moreGroups, v.moreStrs = [][][]text.TextFragment{sg}, [][]string{st}
+		return v
 	}},
 	{name: "ReadingOrder.GetText", family: "column+line", part: 1, run1: func(fr []text.TextFragment) view {
 		r := layout.NewReadingOrderDetector().Detect(fr, pageW, pageH)
@@ -169,7 +201,11 @@ var apis = []api{
 	}},
 	{name: "ReadingOrder.GetParagraphs", paras: true, family: "column+line", part: 1, run1: func(fr []text.TextFragment) view {
 		r := layout.NewReadingOrderDetector().Detect(fr, pageW, pageH)
-		return paraView(r.GetParagraphs().Paragraphs)
+		pl := r.GetParagraphs()
+		v := paraView(pl.Paragraphs)
+		v.moreStrs = append(v.moreStrs, []string{pl.GetText()})
+		v.facets = append(v.facets, "ParagraphLayout.GetText")
+		return v
 	}},
 	{name: "Analyzer.Elements", paras: true, family: "elements", aspect: "loss", part: 1, run1: func(fr []text.TextFragment) view {
 		r := layout.NewAnalyzer().Analyze(fr, pageW, pageH)
@@ -228,7 +264,7 @@ var apis = []api{
 	}},
 	{name: "Lines", family: "line", part: 2, run2: func(p string) view {
 		ls, err := tabula.Open(p).Lines()
-		return view{hasG: true, groups: lineGroups(ls), hasS: true, strs: lineTexts(ls), err: err}
+		return view{hasG: true, groups: lineGroups(ls), hasS: true, strs: lineTexts(ls), err: err, facets: []string{"Line.Fragments", "Line.Text"}}
 	}},
 	{name: "Paragraphs", paras: true, family: "column+line", part: 2, run2: func(p string) view {
 		ps, err := tabula.Open(p).Paragraphs()
@@ -298,6 +334,65 @@ func adoptGeometry(items []item, fr []text.TextFragment) {
 		if i, ok := idx[keyOf(f.Text, f.X, f.Y)]; ok {
 			items[i].w, items[i].h = f.Width, f.Height
 			items[i].extracted = true
+		}
+	}
+}
+
+// ---- coverage: does the block merger merge NON-ADJACENT blocks on the pages of the grammar? -------------
+//
+// The unmerged blocks (MergeOverlappingBlocks=false) are put back into creation order (top line first) and the
+// merge pass is replayed with the pinned rule (boxes overlap by more than 30% of the smaller one): a merge of
+// block i with block j while an unused block lies between them is the constellation in which the merged block's
+// lines are appended "over" other blocks.
+var blockMerges, blockMergesNonAdjacent int64
+
+func countBlockMerges(fr []text.TextFragment) {
+	cfg := layout.DefaultBlockConfig()
+	cfg.MergeOverlappingBlocks = false
+	bs := layout.NewBlockDetectorWithConfig(cfg).Detect(fr, pageW, pageH).Blocks
+	type bb struct{ x0, y0, x1, y1, top float64 }
+	boxes := make([]bb, 0, len(bs))
+	for i := range bs {
+		b := bs[i].BBox
+		top := b.Y + b.Height
+		if len(bs[i].Lines) > 0 && len(bs[i].Lines[0]) > 0 {
+			top = bs[i].Lines[0][0].Y
+		}
+		boxes = append(boxes, bb{b.X, b.Y, b.X + b.Width, b.Y + b.Height, top})
+	}
+	for i := 1; i < len(boxes); i++ { // creation order: first line's baseline, descending
+		for j := i; j > 0 && boxes[j].top > boxes[j-1].top; j-- {
+			boxes[j], boxes[j-1] = boxes[j-1], boxes[j]
+		}
+	}
+	used := make([]bool, len(boxes))
+	for i := range boxes {
+		if used[i] {
+			continue
+		}
+		cur := boxes[i]
+		for j := i + 1; j < len(boxes); j++ {
+			if used[j] {
+				continue
+			}
+			o := boxes[j]
+			l, r := max(cur.x0, o.x0), min(cur.x1, o.x1)
+			bt, tp := max(cur.y0, o.y0), min(cur.y1, o.y1)
+			if l >= r || bt >= tp {
+				continue
+			}
+			if (r-l)*(tp-bt) <= 0.3*min((cur.x1-cur.x0)*(cur.y1-cur.y0), (o.x1-o.x0)*(o.y1-o.y0)) {
+				continue
+			}
+			blockMerges++
+			for k := i + 1; k < j; k++ {
+				if !used[k] {
+					blockMergesNonAdjacent++
+					break
+				}
+			}
+			used[j] = true
+			cur = bb{min(cur.x0, o.x0), min(cur.y0, o.y0), max(cur.x1, o.x1), max(cur.y1, o.y1), cur.top}
 		}
 	}
 }
